@@ -118,7 +118,9 @@ func drawYamlFile(t *rapid.T, label, ruleID, ext string, maxTests int) (C13File,
 				add("other", "", i, "   ")
 			}
 			if chance(t, 30, label+"-odd") {
-				add("other", "", i, pick(t, []string{"          data: 'test identity: 5'", "          # numbering follows", "\t\ttabbed: yes  ", "          title: x"}, label+"-oddl"))
+				add("other", "", i, pick(t, []string{"          data: 'test identity: 5'", "          # numbering follows", "\t\ttabbed: yes  ", "          title: x",
+					// prose inside a block scalar that merely ends with the words (no key, no value)
+					"          data: >\n            a wrapped sentence that mentions the test_id:", "          data: >\n            the legacy field was called test_title:"}, label+"-oddl"))
 			}
 		}
 	}
